@@ -84,35 +84,34 @@ CHECKS = {
         note=COMMON_NOTE + "Pygments' RegexLexer engine, Lexer.get_tokens and Python's re module are MODELLED by hand, not verified: the tie is the per-run differential comparison (token lists on generated texts incl. exhaustive enumeration over the delimiter alphabet, every rule's compiled regex object vs the Lean matcher at random positions) plus table lemmas that fail to build when a regex, flag, state action or lexer option outside the modelled set appears. Unicode \\w/\\d membership tables are read from the running interpreter's re. words(): regex_opt's alternation order is argued irrelevant (keywords are ASCII word-character strings followed by \\b), not proved. Lone surrogates and bytes input are outside the model (surrogates are exercised on the real lexer only)."),
     "C10": dict(
         level="other", design="4/C10",
-        technique="(A) Lean 4 theorems about a hand-written model of the compiler's rejection sites (lean/ESV/Static/Wf.lean: add phase and collect phase of every "
-                  "compile handler in the real collect order, macro cycle check, import recursion with recursion_check, macros_only, strip_last_label on an "
-                  "op-free routine, OpsLabelJumpToRemover) on a static AST produced by the harness from the surface AST, tied to /repo on every run by "
-                  "exception-CLASS equality on generated statically invalid / valid programs and import worlds; (B) exploration of compile() on generated "
-                  "strings in worker processes (time and memory limits) with delta-debugged failing inputs; compile CLI run in a subprocess",
-        text="Split claim, reported separately in the evidence. PROOF (part A, kernel-checked for ALL static ASTs, ALL imported macro sets, ALL import worlds): "
+        technique="(A) Lean 4 theorems about a hand-written model of the compiler's rejection sites (lean/ESV/Static/Wf.lean: SsbScript dispatch, import recursion with "
+                  "recursion_check, macro cycle check, macros-only check, routine id check, add phase and collect phase of every compile handler in the real collect "
+                  "order, fixed-point routine target, OpsLabelJumpToRemover) on a static AST produced by the harness from the surface AST, tied to /repo on every run by "
+                  "exception-CLASS equality on generated statically invalid / valid programs and import worlds; (B) exploration of compile() on generated strings in "
+                  "worker processes (time and memory limits) with delta-debugged failing inputs; compile CLI run in a subprocess",
+        text="Split claim, reported separately in the evidence. PROOF (part A, kernel-checked for ALL static ASTs, ALL imported macro sets, ALL import worlds, no guard): "
              "a program containing `break` at a position not enclosed by a switch case (loops do not reset the case flag, macro bodies do), `continue`/`break_loop` "
-             "outside a loop, a switch ending in a case without statements, two defaults (switch or message switch), a message-switch case holding statements, "
-             "a label in a with-block, `not` on a bit test of a variable other than the performance progress list (if/elseif/while/for header), a call of an unknown "
-             "macro, a call leaving a macro variable without value (ValueError), recursion among the file's macros (cycle check proved complete: macroCycle_of_closed), "
-             "a missing import, an import cycle reachable from the compiled file, or a failing imported file is rejected by the model with a documented class "
-             "(rejects_* theorems, one per shape, plus core_rejects_* for Static.check on the core AST). A jump or call to a label no routine places (labels placed only "
-             "in macro bodies do not count; jumps inside macro expansions are private) is always rejected (rejects_jump_undefined) and with a documented class under the "
-             "decidable guard `Guard` (no routine consists of calls of label-only macros: the pinned strip_last_label raises IndexError there first — "
-             "error_kinds_counterexample, rejects_jump_undefined_counterexample, replayed on the real code every run). error_kinds: the model's only other class is that "
-             "IndexError. 'Routines in an imported file' is FALSE on the pinned code (routines_in_import_accepted, ssbscript_import_accepted: kernel-checked witnesses, "
-             "reproduced on the real compiler every run, known findings); it is proved for the model variant in which HasRoutinesVisitor visits the tree "
-             "(rejects_routines_in_import_if_reparsed). EXPLORATION (part B, no theorem): 'never another exception type' over strings — token/character corruptions of "
-             "valid programs, degenerate routines, routine headers, huge numbers, //?: attribute lines in all positions, SsbScript sources behind the attribute, random "
-             "Unicode, nesting up to 200; quick 3 200 strings, thorough 127 000. Every undocumented (type, innermost repository frame) pair of the pinned tree is listed in "
-             "known_findings.jsonl (17 kinds incl. two no-answer shapes); a new pair, an accepted defect, output left after a rejection, or a CLI that exits 0 / prints JSON "
-             "on rejection is a VIOLATION.",
+             "outside a loop, a jump or call to a label no routine places (labels placed only in macro bodies do not count; jumps inside macro expansions are private), "
+             "a switch ending in a case without statements, two defaults (switch or message switch), a message-switch case holding statements, a label in a with-block, "
+             "`not` on a bit test of a variable other than the performance progress list (if/elseif/while/for header), a call of an unknown macro, a call leaving a "
+             "macro variable without value (ValueError), recursion among the file's macros (cycle check proved complete: macroCycle_of_closed), a missing import, an "
+             "import cycle reachable from the compiled file, routines in an imported file, an imported SsbScript file, or any failing imported file is rejected by the "
+             "model with a documented class (rejects_* theorems, one per shape, plus core_rejects_* for Static.check on the core AST; also a first routine id other than "
+             "0 and a decimal routine target). error_kinds_documented / world_error_kinds_documented: every error of the model, with or without imports, is "
+             "SsbCompilerError or ValueError. The model follows the repaired /repo: the two clauses that were false on the pinned tree (IndexError from strip_last_label "
+             "before the label check; routines in imported files accepted) were repaired by fix: commits and the guards/counterexamples are gone. EXPLORATION (part B, "
+             "no theorem): 'never another exception type' over strings — token/character corruptions of valid programs, degenerate routines, routine headers, huge "
+             "numbers, //?: attribute lines in all positions, SsbScript sources behind the attribute, random Unicode, nesting up to 200; quick 3 200 strings, thorough "
+             "127 000. An undocumented exception type, a hang, an accepted defect, output left after a rejection, or a CLI that exits 0 / prints JSON on rejection is a "
+             "VIOLATION. The 17 (type, site) pairs / shapes found on the pinned tree are all repaired (known_findings.jsonl, status fixed) and their minimal inputs are "
+             "re-run first on every run.",
         note=COMMON_NOTE + "Part B is exploration only: the ANTLR runtime and the generated lexers/parsers are not modelled, so the exception class for an arbitrary string is "
-             "searched, not proved. The model covers the rejection sites, not the back end: the op-offset assert, LabelFinalizer, the routine table (negative / descending / "
-             "huge routine ids, decimal routine targets) are outside it and appear as known findings of part B. The compile order of the macros of one file (macro resolution "
-             "order, defect A4 of C05) is not modelled; generated macro call graphs are forests and a too-few-arguments call is never combined with a defect in another macro "
-             "body. Import paths are resolved by the harness (posix normalisation, lookup directories); realpath/symlinks are not modelled. Import recursion uses fuel = number "
-             "of files + 1; running out of fuel is reported as the SsbCompilerError the implementation raises one level earlier (pigeonhole argument, not proved). "
-             "Workers run compile() with Python's default recursion limit (1000) and 1500 MB address space."),
+             "searched, not proved. The model covers the rejection sites, not the back end: the order check on op offsets (a routine id written twice or out of order: "
+             "SsbCompilerError) and LabelFinalizer are outside it; generated programs write every id once, ascending. The compile order of the macros of one file (macro "
+             "resolution order, defect A4 of C05) is not modelled; generated macro call graphs are forests and a too-few-arguments call is never combined with a defect in "
+             "another macro body. Import paths are resolved by the harness (posix normalisation, lookup directories, directories count as not found); realpath/symlinks "
+             "are not modelled. Import recursion uses fuel = number of files + 1; running out of fuel is reported as the SsbCompilerError the implementation raises one "
+             "level earlier (pigeonhole argument, not proved). Workers run compile() with Python's default recursion limit (1000) and 1500 MB address space."),
     "C15": dict(
         level="proof", design="4/C15",
         technique="Lean 4 theorems about a hand-written model of cli/compile.py (build_ops, build_routines_json) and cli/decompile.py (parse_pos_mark_arg, "
